@@ -17,7 +17,8 @@ LEVEL = 'exploration'
 RULE = ('random references (60-400 bp, optional N bases, C/G placed in the first / last two bases) with a random methylation pattern; molecules of '
         '1..6 fragments on either strand under both TAPS strand conventions, paired, dove-tailed, single-end, with sequencing errors; every '
         'entry of methylation_call_dict and every tag is compared. Non-trivial = molecule with at least one methylated and one unmethylated '
-        'call; distinct = distinct (case seed).')
+        'call; distinct = distinct (case seed).'
+        ' Plus one TAPS caller serving several references, references without any convertible base, reads with deletions, molecules of 255-300 stacked fragments.')
 ASSUMPTIONS = ['the molecule consensus is the C13 vote restricted to positions whose reference base is the expected convertible base',
                'context letters: CG->z, C[ACT]G->x, C[ACT][ACT]->h, anything truncated by the contig end or containing a non-ACGT base -> "."']
 MIN_NONTRIVIAL = {'quick': 200, 'thorough': 25000}
